@@ -4,9 +4,11 @@ C19: trace acceptors for histories recorded on the real cluster when the schedul
 entity observed and the driver answers `accept` / `reject <why>`.
 
 The predicates are the *observable projections* of the transition system of Model/Actor.lean:
-Props/C19.lean proves that every schedule of the model satisfies them (`model_life_accepted`,
-`model_fifo_accepted`, `model_calls_accepted`), so a rejected real history is a behaviour the model cannot
-produce.
+Props/C19.lean proves that every schedule of the model satisfies the lifecycle and FIFO acceptors
+(`model_life_accepted`, `model_fifo_accepted`), so a history they reject is a behaviour the model cannot
+produce. The call / name / supervision acceptors restate `reply_comes_from_the_handler`,
+`at_most_one_actor_per_name` / `name_free_after_drop` and the emission order of `Cluster::start` on the
+observed data; for them no "model ⊆ acceptor" theorem is proved (see notes/C19.md).
 
 Core Lean only (the driver `c19d` links this file).
 -/
@@ -137,6 +139,9 @@ def verdict (b : Bool) (why : String) : String := if b then "accept" else "rejec
 def judgeLine (ws : List String) : String :=
   match ws with
   | "life" :: fate :: toks =>
+    -- `open2` / `open3`: a stop hook found its own mailbox still open (never produced by the model:
+    -- `closed_during_stop_hooks`)
+    if toks.any (·.startsWith "open") then "reject lifecycle" else
     let fate? : Option Fate := match fate with
       | "X" => some .exited | "F" => some .startFailed | "L" => some .unknown | _ => none
     match fate?, allSome (toks.map parseObs) with
